@@ -506,6 +506,105 @@ fn huge_input_family(out: &mut Outcome) {
     }
 }
 
+/// Operations of 64 KiB and more on the growable target, with every kind of spare capacity in front of them (growth policies
+/// change with size; what matters is capacity counted from the length, not from the old capacity).
+fn big_vec_family(out: &mut Outcome) {
+    for prefill in [0usize, 5] {
+        for spare in [0usize, 1, 100, 4096, 65535, 65536, 70000] {
+            for big in [65535usize, 65536, 65537, 70000, 131072] {
+                let data: Vec<u8> = (0..big).map(|i| (i * 7 + 3) as u8).collect();
+                let histories: Vec<Vec<Op>> = vec![
+                    vec![Op::WriteBytes(data.clone()), Op::WriteByte(0x42)],
+                    vec![Op::Reserve(big), Op::WriteByte(0x42), Op::WriteRes(0, vec![1, 2, 3]), Op::WriteRes(0, data[..big - 3].to_vec())],
+                    vec![Op::WriteBytes(vec![9, 9, 9]), Op::WriteBytes(data.clone()), Op::Reserve(big), Op::WriteBytes(data[..100].to_vec())],
+                ];
+                for h in &histories {
+                    for recreate in [false, true] {
+                        guarded(out, || format!("c12 bigvec prefill {prefill} spare {spare} size {big} recreate {recreate}"), || run_vec(h, prefill, spare, recreate));
+                        out.count("big_vec_histories", 1);
+                    }
+                }
+            }
+        }
+    }
+}
+
+/// A reservation handed to a *different* fixed-slice target over a shorter window of the same memory (reservations carry no
+/// lifetime): whatever the answer, nothing past that target's end changes; a refusal changes nothing at all.
+fn foreign_reservation_family(out: &mut Outcome) {
+    // the interpreter gets a thinned grid (about 150 cases instead of 38 k)
+    let thin = cfg!(miri);
+    for total in (if thin { vec![8usize] } else { vec![8usize, 16] }) {
+        for a in 0..=total {
+            for k in 0..=(total - a).min(6) {
+                for w in 0..=total {
+                    for b in 0..=w.min(4) {
+                        for n in 0..=k.min(4) + 1 {
+                            if thin && !([0usize, 3, 8].contains(&a) && [0usize, 2, 5].contains(&k) && [0usize, 4, 8].contains(&w) && [0usize, 2].contains(&b) && [0usize, 1, 3].contains(&n)) {
+                                continue;
+                            }
+                            out.evaluations += 1;
+                            out.count("foreign_reservation_cases", 1);
+                            let mut mem: Box<[u8]> = vec![0xEEu8; total].into_boxed_slice();
+                            let mut reservation = {
+                                let mut first = SliceOutputTarget::from(&mut mem[..]);
+                                if first.write_bytes_exact(&vec![0xA1u8; a]).is_err() {
+                                    continue;
+                                }
+                                match first.reserve_space(k) {
+                                    Ok(r) => r,
+                                    Err(_) => continue,
+                                }
+                            };
+                            let data: Vec<u8> = (0..n).map(|i| 0x50 + i as u8).collect();
+                            let attempt = catch_unwind(AssertUnwindSafe(|| {
+                                let mut second = SliceOutputTarget::from(&mut mem[..w]);
+                                if second.write_bytes_exact(&vec![0xB2u8; b]).is_err() {
+                                    return None;
+                                }
+                                Some(second.write_bytes_into_reserved_exact(&mut reservation, &data).is_ok())
+                            }));
+                            let result = match attempt {
+                                Ok(Some(r)) => r,
+                                Ok(None) => continue,
+                                Err(_) => {
+                                    let info = crate::LAST_PANIC.lock().unwrap().take().unwrap_or_default();
+                                    out.violate(&format!("panic:{info}"), format!("writing into a foreign reservation panicked: {info} (total {total} a {a} k {k} w {w} b {b} n {n})"), String::new());
+                                    continue;
+                                }
+                            };
+                            // what memory must look like apart from the contested write
+                            let mut expect: Vec<u8> = vec![0xEEu8; total];
+                            for i in 0..a {
+                                expect[i] = 0xA1;
+                            }
+                            for i in 0..b {
+                                expect[i] = 0xB2;
+                            }
+                            let what = || format!("memory of {total} bytes, first target wrote {a} and reserved {k}, second target over [..{w}] wrote {b} then {n} bytes into that reservation");
+                            if result {
+                                if n > k || a + n > w {
+                                    out.violate("foreign-reservation-write-accepted", format!("{}: accepted although it does not fit the reservation inside the window", what()), String::new());
+                                    continue;
+                                }
+                                for i in 0..n {
+                                    expect[a + i] = data[i];
+                                }
+                            }
+                            if mem[w..] != expect[w..] {
+                                out.violate("wrote-past-end-of-slice", format!("{}: bytes past the window changed: {} (expected {})", what(), hex(&mem[w..]), hex(&expect[w..])), String::new());
+                            } else if mem[..] != expect[..] {
+                                out.violate(if result { "reservation-write-misplaced" } else { "refused-reservation-write-changed-buffer" },
+                                            format!("{}: memory is {} expected {}", what(), hex(&mem), hex(&expect)), String::new());
+                            }
+                        }
+                    }
+                }
+            }
+        }
+    }
+}
+
 fn guarded(out: &mut Outcome, replay: impl FnOnce() -> String, f: impl FnOnce() -> Result<(), Fail>) {
     out.evaluations += 1;
     match catch_unwind(AssertUnwindSafe(f)) {
@@ -615,6 +714,12 @@ pub fn run(p: &Params) -> Outcome {
         out.count("exhaustive_input_histories", n_in);
         if shard == 0 {
             huge_input_family(&mut out);
+        }
+        if shard == 1 % shards && !cfg!(miri) {
+            big_vec_family(&mut out);
+        }
+        if shard == 2 % shards {
+            foreign_reservation_family(&mut out);
         }
 
         // 3. random long histories
